@@ -609,6 +609,48 @@ theorem C19_regenerated (C : Ctx α) (o : Opt) (ls : List (Link α)) (net : Net 
   rw [hroute, hd, htm, hsd, hed, hl, List.map_map]
   rfl
 
+/-- **Unconnected nodes, for the code as regenerated**: same setting as `C19_regenerated`, but NO chain of stored links
+joins the two nearest nodes — the regenerated `ShortestRoute` returns without fault the empty route with zero distance
+and time (and the start/end distances to `s`/`t`).  (`tie_build` + `tie_ShortestRoute_ok` + `build_wf` +
+`heuristic_consistent` + `C19_unreachable` at gonum's heap.) -/
+theorem C19_regenerated_unreachable (C : Ctx α) (o : Opt) (ls : List (Link α)) (net : Net α) (from_ to_ : Pt α) (s t : MNode α)
+    (hQ : C.Q = heapQ) (hmo : ∀ m : Map Nat (Option (Edge α)), (C.mo.perm m).Perm m)
+    (hnil : ∀ p, C.geo.nearest [] p = none) (hmax : 2 * ls.length ≤ Go.maxInt)
+    (hb : build C.geo o ls = .ok net) (hsp : ∀ l ∈ ls, 0 < l.speed) (hc : GeoContract C.geo)
+    (htri : ∀ p q r, C.geo.euclid p r ≤ C.geo.euclid p q + C.geo.euclid q r)
+    (hs : C.geo.nearest net.nodes from_ = some s) (ht : C.geo.nearest net.nodes to_ = some t)
+    (hdis : ¬ ∃ es0, (∀ e ∈ es0, e ∈ net.edges) ∧ EChain s.id es0 t.id) :
+    ∃ g0 g, network_NewNetwork C (optNum o) = .ok g0 ∧ genBuild C g0 ls = .ok g ∧
+      network_ShortestRoute C g from_ to_ = .ok ([], 0, 0, C.geo.euclid from_ s.p, C.geo.euclid to_ t.p) := by
+  obtain ⟨g0, g, e0, eb, hR⟩ := tie_build (geoOf := linkGeo ls) C hnil o ls hmax
+    (fun j hj => by simp [linkGeo, hj]) net hb
+  obtain ⟨hwf, hspeed, _, hscale, hchord⟩ := build_wf C.geo hc o ls net hsp hb
+  have hch : ∀ e ∈ net.edges, ∀ pa pb, nodePos net e.a = some pa → nodePos net e.b = some pb →
+      net.hscale * C.geo.euclid pa pb ≤ e.length ∧ net.hscale * C.geo.euclid pb pa ≤ e.length := by
+    intro e he pa pb ha hb'
+    have := hchord e he pa pb ha hb'
+    exact ⟨this, by rw [hc.euclidSymm pb pa]; exact this⟩
+  obtain ⟨r, hr, hl, hd, htm, hsn, hen⟩ :=
+    C19_unreachable C.geo heapQ GoodH (ordOf C g) net from_ to_ s t heapQ_spec (ordOf_mem C g) hwf hc.nearestMem hs ht
+      (heuristic_consistent C.geo net (ordOf C g) (ordOf_mem C g) hwf ⟨htri, hch, hscale.1, hspeed⟩ t.id) hdis
+  have hr' := hr
+  rw [← hQ] at hr
+  have hroute := tie_ShortestRoute_ok C g net hR (fun u => hmo _) hwf.ends from_ to_ r hr
+  refine ⟨g0, g, e0, eb, ?_⟩
+  rw [hroute, hl, hd, htm]
+  simp only [shortestRoute, hs, ht] at hr'
+  revert hr'
+  split
+  · intro h; cases h
+  · split
+    · intro h; cases h
+    · split
+      · intro h; cases h
+      · intro h
+        simp only [Except.ok.injEq] at h
+        subst h
+        rfl
+
 /-- non-vacuity of the map-order hypothesis: visiting a map back to front is a permutation of its entries -/
 example : ∀ m : Map Nat (Option (Edge ℚ)), ((⟨fun m => m.reverse⟩ : MapOrder).perm m).Perm m := fun m => List.reverse_perm m
 
